@@ -1,4 +1,4 @@
-//@@ unit c13_resolvers properties=C13
+//@@ unit c13_resolvers properties=C13,C12
 #![allow(unused_imports, dead_code, unused_variables, unused_mut)]
 use vstd::prelude::*;
 
